@@ -146,6 +146,8 @@ def run(check, repo: Repo) -> None:
                  definite=bool(prev_),
                  fail_detail=f"the setter forces dtype {forced}: copying bin(reducer='mean') / fourier_resample on integer data are truncated back to integers while the in-place variants, "
                              f"which bind self._array directly, keep the floating-point result")
+    from .c06 import working_vectors
+    working_vectors(check, repo, repo.func(f"{DS}:Dataset.bin")[1], "Dataset.bin", "C03-R4")
     calibration_setter_dtype(check, repo, "C03-R5", "the copying variants (which go through the setter) and the in-place variants (which bind the private field) disagree")
     _, vn = repo.func(f"{VAL}:validate_ndinfo")
     _, vu = repo.func(f"{VAL}:validate_units")
